@@ -14,6 +14,7 @@
 package main
 
 import (
+	"crypto/sha256"
 	"encoding/hex"
 	"fmt"
 	"go/token"
@@ -285,56 +286,134 @@ func main() {
 	}
 	validatedByBinding := map[string]bool{}
 	var bindingMismatch []string
+	// a record kind that is bound to a real helper by the NAME of its prefix constant must still be found by the
+	// extractor (a bound kind that silently disappears after a refactor is suspicious, not fine)
+	{
+		have := map[string]bool{}
+		for _, k := range kinds {
+			have[firstLitName(k.Segs)] = true
+		}
+		for name := range bindings {
+			if !have[name] {
+				r.HarnessError("record kind bound by constant %s is no longer found by the extractor (key construction moved out of reach?)", name)
+			}
+		}
+	}
+	nonLiteral := []map[string]any{}
+	var tuplesTried, tuplesRejected int
+	sbx := newSandboxNS()
 	for _, k := range kinds {
-		b, ok := bindings[firstLitName(k.Segs)]
+		name := firstLitName(k.Segs)
+		b, ok := bindings[name]
 		if !ok {
 			continue
 		}
-		okAll := true
-		for t := 0; t < 2; t++ {
-			params := sampleParams(k.Segs, t)
-			a, err := mkArgs(k.Segs, params, fmt.Sprint("t", t))
-			if err != nil || !b.fits(firstLitName(k.Segs), a) {
+		addr, _ := contractAddr(k.Contract)
+		pfx := append([]byte{byte(scom.ST_STORAGE)}, addr[:]...)
+		// run the real helper on one parameter tuple; returns the keys it wrote under this contract
+		run := func(params [][]byte, tag string) (map[string]string, error) {
+			a, err := mkArgs(k.Segs, params, tag)
+			if err != nil || !b.fits(name, a) {
+				return nil, errNoFit
+			}
+			sbx.reset()
+			if err := b.put(sbx.ns, a); err != nil {
+				return nil, err
+			}
+			out := map[string]string{}
+			for kk, v := range sbx.written() {
+				if strings.HasPrefix(kk, string(pfx)) {
+					out[kk] = v
+				}
+			}
+			return out, nil
+		}
+		okAll, fitted, accepted := true, false, 0
+		byKey := map[string][][]byte{} // record key actually written -> first tuple that wrote it
+		tuples := boundaryTuples(k.Segs)
+		for ti, params := range tuples {
+			ws, err := run(params, fmt.Sprint("t", ti))
+			if err == errNoFit {
 				okAll = false
 				break
+			}
+			fitted = true
+			tuplesTried++
+			r.Eval()
+			if err != nil {
+				tuplesRejected++ // the real helper refuses this value (validation inside the helper)
+				continue
 			}
 			want, _ := build(k.Segs, params)
-			addr, _ := contractAddr(k.Contract)
-			wantKey := string(append(append([]byte{byte(scom.ST_STORAGE)}, addr[:]...), want...))
-			s := newSandboxNS()
-			if err := b.put(s.ns, a); err != nil {
-				okAll = false
-				bindingMismatch = append(bindingMismatch, k.ID()+": helper error: "+err.Error())
-				s.close()
-				break
-			}
-			ws := s.written()
-			s.close()
-			if _, ok := ws[wantKey]; !ok {
-				okAll = false
-				var got []string
-				for kk := range ws {
-					got = append(got, hex.EncodeToString([]byte(kk)))
+			wantKey := string(pfx) + string(want)
+			if _, ok := ws[wantKey]; ok {
+				accepted++
+				if prev, dup := byKey[wantKey]; dup && fmt.Sprint(prev) != fmt.Sprint(params) {
+					r.HarnessError("two different tuples with one literal key for %s", k.ID())
 				}
-				sort.Strings(got)
-				bindingMismatch = append(bindingMismatch, fmt.Sprintf("%s: schema key %x not among the keys written by the real helper %v", k.ID(), wantKey, got))
-				break
+				byKey[wantKey] = params
+				continue
 			}
-			r.Eval()
+			// the helper did NOT write contract ++ literal ++ raw parameter bytes: find what it wrote instead
+			okAll = false
+			lit0 := ""
+			for _, s := range k.Segs {
+				if s.K == "lit" {
+					lit0 = s.Lit
+					break
+				}
+			}
+			var dev []string
+			for kk := range ws {
+				if strings.Contains(kk[len(pfx):], lit0) {
+					dev = append(dev, kk)
+				}
+			}
+			sort.Strings(dev)
+			finding := map[string]any{"kind": k.ID(), "sites": k.Sites, "params_hex": hexAll(params), "expected_key_hex": hex.EncodeToString([]byte(wantKey)), "written_keys_hex": hexStrs(dev)}
+			confirmed := false
+			for _, kk := range dev {
+				// (1) another tuple of the alphabet already wrote this key
+				if prev, dup := byKey[kk]; dup && fmt.Sprint(prev) != fmt.Sprint(params) {
+					finding["other_params_hex"], finding["shared_key_hex"], confirmed = hexAll(prev), hex.EncodeToString([]byte(kk)), true
+					break
+				}
+				byKey[kk] = params
+				// (2) read the observed key back through the schema: the tuple it literally denotes
+				w2, _ := collide(k.Segs, []Seg{{K: "lit", Lit: kk[len(pfx):]}}, false, 0)
+				if w2 == nil || fmt.Sprint(w2.ParamsA) == fmt.Sprint(params) {
+					continue
+				}
+				ws2, err2 := run(w2.ParamsA, "other")
+				if _, same := ws2[kk]; err2 == nil && same {
+					finding["other_params_hex"], finding["shared_key_hex"], confirmed = hexAll(w2.ParamsA), hex.EncodeToString([]byte(kk)), true
+					break
+				}
+			}
+			if confirmed {
+				finding["replay"] = "the real storage helper of this kind, called with params_hex and with other_params_hex (two different parameter tuples), writes the same storage key"
+				r.Violation("key-not-literal-concatenation:"+kindName(k), finding)
+			} else {
+				finding["class"] = "unconfirmed: key is not the literal concatenation of its parameters, but no second tuple with the same key was exhibited"
+				nonLiteral = append(nonLiteral, finding)
+			}
+			r.Class("key-not-literal")
 		}
-		if okAll {
+		if okAll && fitted && accepted > 0 {
 			validatedByBinding[k.ID()] = true
+		} else if fitted {
+			bindingMismatch = append(bindingMismatch, k.ID())
 		}
 	}
+	sbx.close()
+	cov["b_literal_concatenation"] = map[string]any{"tuples_tried": tuplesTried, "tuples_rejected_by_helper": tuplesRejected,
+		"var_alphabet_lengths": []int{0, 1, 31, 32, 33, 64, 0xFD, 0x100}, "var_alphabet_extra": "leading 0x00 (32 bytes), all 0xFF (32 bytes)",
+		"fix_alphabet": "all 0x00, all 0xFF, LE 1, high bit only, pattern", "kinds_not_literal": bindingMismatch, "unconfirmed_non_literal": nonLiteral}
 	if len(validatedByBinding) > 0 {
 		r.Class("kind-validated-by-binding")
 	}
 	if len(validatedByTx) > 0 {
 		r.Class("kind-validated-by-real-tx")
-	}
-	if len(bindingMismatch) > 0 {
-		// the extracted schema disagrees with what the real helper writes: the extractor (or a binding) is wrong
-		r.HarnessError("schema/real-helper disagreement: %v", bindingMismatch)
 	}
 
 	// ---- (b)(ii) pairwise collision search
@@ -772,4 +851,64 @@ func modelSelfTest() {
 			}
 		}
 	}
+}
+
+var errNoFit = fmt.Errorf("binding does not fit the schema")
+
+func hexStrs(l []string) []string {
+	out := make([]string, len(l))
+	for i, s := range l {
+		out[i] = hex.EncodeToString([]byte(s))
+	}
+	return out
+}
+
+// boundaryTuples: the full product of the per-segment boundary alphabets.
+func boundaryTuples(p []Seg) [][][]byte {
+	stream := make([]byte, 0, 0x120)
+	h := sha256.Sum256([]byte("c17-boundary"))
+	for len(stream) < 0x110 {
+		stream = append(stream, h[:]...)
+		h = sha256.Sum256(h[:])
+	}
+	alpha := make([][][]byte, len(p))
+	for i, s := range p {
+		switch s.K {
+		case "lit":
+			alpha[i] = [][]byte{[]byte(s.Lit)}
+		case "fix":
+			z := make([]byte, s.N)
+			f := make([]byte, s.N)
+			one := make([]byte, s.N)
+			hi := make([]byte, s.N)
+			for j := range f {
+				f[j] = 0xFF
+			}
+			one[0] = 1
+			hi[s.N-1] = 0x80
+			alpha[i] = [][]byte{z, f, one, hi, append([]byte{}, stream[i:i+s.N]...)}
+		default:
+			for _, n := range []int{0, 1, 31, 32, 33, 64, 0xFD, 0x100} {
+				alpha[i] = append(alpha[i], append([]byte{}, stream[i:i+n]...))
+			}
+			alpha[i] = append(alpha[i], []byte("9"), []byte("910")) // decimal text (numeric segments rendered as text)
+			lead := append([]byte{0}, stream[i:i+31]...)
+			ff := make([]byte, 32)
+			for j := range ff {
+				ff[j] = 0xFF
+			}
+			alpha[i] = append(alpha[i], lead, ff)
+		}
+	}
+	out := [][][]byte{{}}
+	for i := range p {
+		var next [][][]byte
+		for _, t := range out {
+			for _, v := range alpha[i] {
+				next = append(next, append(append([][]byte{}, t...), v))
+			}
+		}
+		out = next
+	}
+	return out
 }
